@@ -20,4 +20,7 @@ def run(ctx):
     obs += [o for o in cp.ctx_rule(ctx, 'C18') if '/at-prelude/' in o['key']]
     from rules.c01 import unreachable_dispatch_rule
     obs += unreachable_dispatch_rule(ctx, "C18.wrap/functions/dispatch-guard")
+    # wave 11: the low-priority flag is back to "normal output" whenever a :host rule is done, whatever the at-rule stack holds -
+    # or the next @import writes its placeholder into the wrong output (shared with C17.pair)
+    obs += [o for o in cp.host_rules(ctx, 'C18') if '.pair/low-priority' in o['key']]
     return obs
